@@ -225,6 +225,8 @@ def _on_yield(rec, tr, item, best_obj):
         "names": active,
         "n_abs": len(rec.abss),
         "n_prod": len(rec.prods),
+        # objective coefficients of the active binaries (for tie-breaker-free scores)
+        "coef": {pm.names[i]: pm.c[i] for i in pm.binaries if round(vals[i]) == 1 and pm.c[i]},
     })
     tr.last_values = dict(zip(pm.names, vals)) if len(pm.names) < 60000 else None
 
